@@ -53,6 +53,16 @@ func setupC05(x *Ctx) {
 			}
 		}
 	}
+	// a reset between "connection object created, pumps running" and "registered"
+	if x.Chance("cut-at-register", 0.12) {
+		k := 1 + x.Choose("cut-at-register-k", 4)
+		r.atRegister = func(node string, n int) {
+			if n == k {
+				x.Probe("cut-at-register")
+				r.cutNewest(node)
+			}
+		}
+	}
 	nDist := x.Biased("disturbances", 5, 0.35)
 	var dist []string
 	for i := 0; i < nDist; i++ {
